@@ -94,6 +94,22 @@ def strategy(tier):
     return _scn()
 
 
+def enumerated(tier):
+    zones = sorted(z for z in zoneinfo.available_timezones() if not z.startswith(("posix/", "right/")) and z not in ("localtime", "Factory"))
+    if tier == "quick":
+        zones = zones[::12]
+    for i, z in enumerate(zones):
+        y = 1985 + (i * 7) % 50
+        files = [
+            {"name": "january.mov", "size": 3, "mtime": 1579093200, "frac": 0, "near_now_days": None, "near_switch": None},
+            {"name": "july.mov", "size": 0, "mtime": 1594818000, "frac": 0.5, "near_now_days": None, "near_switch": None},
+            {"name": "switch a.mov", "size": 1, "mtime": 1000000000, "frac": 0, "near_now_days": None, "near_switch": {"year": y, "idx": 0, "delta": 1800}},
+            {"name": "switch b.mov", "size": 1, "mtime": 1000000000, "frac": 0, "near_now_days": None, "near_switch": {"year": y, "idx": 1, "delta": 1800}},
+            {"name": "switch c.mov", "size": 1, "mtime": 1000000000, "frac": 0, "near_now_days": None, "near_switch": {"year": y, "idx": 1, "delta": -1}},
+        ]
+        yield {"tz": {"kind": "iana", "tz": z}, "files": files, "formats": ["md5"], "sub": False}
+
+
 def _posix_custom(spec, now):
     """POSIX TZ string with a DST period of 2*half days that contains / does not contain today"""
     def j(ts):
